@@ -2,6 +2,7 @@
 mod common;
 mod core;
 mod corpus;
+mod coverage;
 
 use crate::core::{Ann, Naming};
 
@@ -37,6 +38,8 @@ fn main() {
             let (a, n) = mode(&args[4]);
             core::render_core(&args[2], &args[3], a, n);
         }
+        | "replay-coverage" => coverage::replay_coverage(&args[2], &args[3], &args[4]),
+        | "replay-comatch" => coverage::replay_comatch(&args[2], &args[3]),
         | "corpus-run" => {
             // zyconf corpus-run OUT MUTANTS_PER_FILE MAX_STEPS
             corpus::corpus_run(&args[2], args[3].parse().unwrap(), args[4].parse().unwrap());
